@@ -2354,6 +2354,15 @@ func (f *formatter) importHasComment(importNode *ast.ImportNode) bool {
 		return false
 	}
 
+	if compoundStringLiteralNode, ok := importNode.Name.(*ast.CompoundStringLiteralNode); ok {
+		// The name is split into several string literals, which
+		// can have comments in between.
+		for _, child := range compoundStringLiteralNode.Children() {
+			if f.nodeHasComment(child) {
+				return true
+			}
+		}
+	}
 	return f.nodeHasComment(importNode.Keyword) ||
 		f.nodeHasComment(importNode.Name) ||
 		f.nodeHasComment(importNode.Semicolon) ||
